@@ -96,6 +96,7 @@ type Call struct {
 	DAG    [][]string
 	UseTag bool
 	HasOpt bool
+	OddKeys bool // the data map also carries an empty key and a nil value (the pool must ignore both)
 	Plan   map[int]*RulePlan
 	Hold   bool // park on the hold gate at the first yield of the first rule (probe rounds)
 
@@ -263,7 +264,9 @@ func InvokeEngine(sc *Scenario, g *engine.Gengine, rb *builder.RuleBuilder, c *C
 	}
 	sort.Strings(keys)
 	for _, k := range keys {
-		rb.Dc.Add(k, data[k])
+		if k != "" && data[k] != nil {
+			rb.Dc.Add(k, data[k])
+		}
 	}
 	flags := int64(0)
 	simrt.Emit(EvCallB, int64(c.Idx), int64(c.Method), int64(c.Client))
